@@ -181,6 +181,20 @@ def run(tier, seed):
                 else:
                     ops.append({'op': 'mm', 'r': {'cport': 100 + k, 'ts': ts}})
             ops.append({'op': 'wb'})
+        if i % 4 == 3:
+            # two parameter sets, the exporter switches from a fine tick rate to a coarser one; the block written last under the fine
+            # rate had its earliest time late in the second; the first item of the next block carries no time, timed ones follow
+            tps_hi, tps_lo = r.choice([(10 ** 6, 1000), (10 ** 9, 1000), (10 ** 9, 10 ** 6), (1000, 1), (10 ** 6, 10)])
+            pre = gen.gen_preamble(r, nbps=2, tps=tps_hi, maxi=10000, hints=(gen.ALL_QRH, gen.ALL_SIGH, 3, 3))
+            pre['bps'][1]['tps'] = tps_lo
+            base = r.randrange(10, 2 * 10 ** 9)
+            ops = [{'op': 'qr', 'r': {'tid': 1, 'ts': [base, tps_hi - 1 - r.randrange(0, 3)]}}, {'op': 'mm', 'r': {'cport': 2, 'ts': [base + 1, 5]}}, {'op': 'wb'},
+                   {'op': 'setactive', 'idx': 1}, {'op': 'wb'},
+                   {'op': 'qr' if r.random() < 0.5 else 'mm', 'r': {'cport': 3}}]
+            for k in range(r.choice([1, 3, 6])):
+                ts = [base + r.choice([0, 1, 2, 50, 500, 900, 2000]), r.randrange(0, tps_lo)]
+                ops.append({'op': 'qr', 'r': {'tid': 10 + k, 'ts': ts}} if r.random() < 0.6 else {'op': 'mm', 'r': {'cport': 10 + k, 'ts': ts}})
+            ops.append({'op': 'wb'})
         cases.append({'id': 't%05d' % i, 'preamble': pre, 'open': {'id': 'o0', 'kind': 'fd', 'comp': 'none'}, 'ops': ops})
     er = ExportRun(PROP, cases, 'c17b', need_lib_read=True)
     try:
